@@ -11,31 +11,54 @@ import (
 // switch it off for packages verified compositionally).
 var Yield = true
 
-func pt(name string) {
+func pt(name string, p unsafe.Pointer) {
+	write := name != "atomic.Load" && name != "atomic.Value.Load"
 	if Yield {
-		vsched.Point(name, nil)
+		vsched.PointObj(name, nil, p, write)
+	} else {
+		vsched.Touch(p, write)
 	}
 }
 
-func AddInt32(p *int32, d int32) int32      { pt("atomic.Add"); *p += d; return *p }
-func AddInt64(p *int64, d int64) int64      { pt("atomic.Add"); *p += d; return *p }
-func AddUint32(p *uint32, d uint32) uint32  { pt("atomic.Add"); *p += d; return *p }
-func AddUint64(p *uint64, d uint64) uint64  { pt("atomic.Add"); *p += d; return *p }
-func LoadInt32(p *int32) int32              { pt("atomic.Load"); return *p }
-func LoadInt64(p *int64) int64              { pt("atomic.Load"); return *p }
-func LoadUint32(p *uint32) uint32           { pt("atomic.Load"); return *p }
-func LoadUint64(p *uint64) uint64           { pt("atomic.Load"); return *p }
-func StoreInt32(p *int32, v int32)          { pt("atomic.Store"); *p = v }
-func StoreInt64(p *int64, v int64)          { pt("atomic.Store"); *p = v }
-func StoreUint32(p *uint32, v uint32)       { pt("atomic.Store"); *p = v }
-func StoreUint64(p *uint64, v uint64)       { pt("atomic.Store"); *p = v }
-func SwapInt32(p *int32, v int32) int32     { pt("atomic.Swap"); o := *p; *p = v; return o }
-func SwapInt64(p *int64, v int64) int64     { pt("atomic.Swap"); o := *p; *p = v; return o }
-func SwapUint32(p *uint32, v uint32) uint32 { pt("atomic.Swap"); o := *p; *p = v; return o }
-func SwapUint64(p *uint64, v uint64) uint64 { pt("atomic.Swap"); o := *p; *p = v; return o }
+func AddInt32(p *int32, d int32) int32     { pt("atomic.Add", unsafe.Pointer(p)); *p += d; return *p }
+func AddInt64(p *int64, d int64) int64     { pt("atomic.Add", unsafe.Pointer(p)); *p += d; return *p }
+func AddUint32(p *uint32, d uint32) uint32 { pt("atomic.Add", unsafe.Pointer(p)); *p += d; return *p }
+func AddUint64(p *uint64, d uint64) uint64 { pt("atomic.Add", unsafe.Pointer(p)); *p += d; return *p }
+func LoadInt32(p *int32) int32             { pt("atomic.Load", unsafe.Pointer(p)); return *p }
+func LoadInt64(p *int64) int64             { pt("atomic.Load", unsafe.Pointer(p)); return *p }
+func LoadUint32(p *uint32) uint32          { pt("atomic.Load", unsafe.Pointer(p)); return *p }
+func LoadUint64(p *uint64) uint64          { pt("atomic.Load", unsafe.Pointer(p)); return *p }
+func StoreInt32(p *int32, v int32)         { pt("atomic.Store", unsafe.Pointer(p)); *p = v }
+func StoreInt64(p *int64, v int64)         { pt("atomic.Store", unsafe.Pointer(p)); *p = v }
+func StoreUint32(p *uint32, v uint32)      { pt("atomic.Store", unsafe.Pointer(p)); *p = v }
+func StoreUint64(p *uint64, v uint64)      { pt("atomic.Store", unsafe.Pointer(p)); *p = v }
+func SwapInt32(p *int32, v int32) int32 {
+	pt("atomic.Swap", unsafe.Pointer(p))
+	o := *p
+	*p = v
+	return o
+}
+func SwapInt64(p *int64, v int64) int64 {
+	pt("atomic.Swap", unsafe.Pointer(p))
+	o := *p
+	*p = v
+	return o
+}
+func SwapUint32(p *uint32, v uint32) uint32 {
+	pt("atomic.Swap", unsafe.Pointer(p))
+	o := *p
+	*p = v
+	return o
+}
+func SwapUint64(p *uint64, v uint64) uint64 {
+	pt("atomic.Swap", unsafe.Pointer(p))
+	o := *p
+	*p = v
+	return o
+}
 
 func CompareAndSwapInt32(p *int32, o, n int32) bool {
-	pt("atomic.CAS")
+	pt("atomic.CAS", unsafe.Pointer(p))
 	if *p == o {
 		*p = n
 		return true
@@ -43,7 +66,7 @@ func CompareAndSwapInt32(p *int32, o, n int32) bool {
 	return false
 }
 func CompareAndSwapInt64(p *int64, o, n int64) bool {
-	pt("atomic.CAS")
+	pt("atomic.CAS", unsafe.Pointer(p))
 	if *p == o {
 		*p = n
 		return true
@@ -51,7 +74,7 @@ func CompareAndSwapInt64(p *int64, o, n int64) bool {
 	return false
 }
 func CompareAndSwapUint32(p *uint32, o, n uint32) bool {
-	pt("atomic.CAS")
+	pt("atomic.CAS", unsafe.Pointer(p))
 	if *p == o {
 		*p = n
 		return true
@@ -59,36 +82,36 @@ func CompareAndSwapUint32(p *uint32, o, n uint32) bool {
 	return false
 }
 func CompareAndSwapUint64(p *uint64, o, n uint64) bool {
-	pt("atomic.CAS")
+	pt("atomic.CAS", unsafe.Pointer(p))
 	if *p == o {
 		*p = n
 		return true
 	}
 	return false
 }
-func LoadPointer(p *unsafe.Pointer) unsafe.Pointer     { pt("atomic.Load"); return *p }
-func StorePointer(p *unsafe.Pointer, v unsafe.Pointer) { pt("atomic.Store"); *p = v }
+func LoadPointer(p *unsafe.Pointer) unsafe.Pointer     { pt("atomic.Load", unsafe.Pointer(p)); return *p }
+func StorePointer(p *unsafe.Pointer, v unsafe.Pointer) { pt("atomic.Store", unsafe.Pointer(p)); *p = v }
 
 type Value struct {
 	v interface{}
 }
 
-func (x *Value) Load() interface{} { pt("atomic.Value.Load"); return x.v }
+func (x *Value) Load() interface{} { pt("atomic.Value.Load", unsafe.Pointer(x)); return x.v }
 func (x *Value) Store(v interface{}) {
 	if v == nil {
 		panic("sync/atomic: store of nil value into Value")
 	}
-	pt("atomic.Value.Store")
+	pt("atomic.Value.Store", unsafe.Pointer(x))
 	x.v = v
 }
 
 type Int32 struct{ v int32 }
 
-func (x *Int32) Load() int32       { pt("atomic.Load"); return x.v }
-func (x *Int32) Store(v int32)     { pt("atomic.Store"); x.v = v }
-func (x *Int32) Add(d int32) int32 { pt("atomic.Add"); x.v += d; return x.v }
+func (x *Int32) Load() int32       { pt("atomic.Load", unsafe.Pointer(x)); return x.v }
+func (x *Int32) Store(v int32)     { pt("atomic.Store", unsafe.Pointer(x)); x.v = v }
+func (x *Int32) Add(d int32) int32 { pt("atomic.Add", unsafe.Pointer(x)); x.v += d; return x.v }
 func (x *Int32) CompareAndSwap(o, n int32) bool {
-	pt("atomic.CAS")
+	pt("atomic.CAS", unsafe.Pointer(x))
 	if x.v == o {
 		x.v = n
 		return true
@@ -98,11 +121,11 @@ func (x *Int32) CompareAndSwap(o, n int32) bool {
 
 type Int64 struct{ v int64 }
 
-func (x *Int64) Load() int64       { pt("atomic.Load"); return x.v }
-func (x *Int64) Store(v int64)     { pt("atomic.Store"); x.v = v }
-func (x *Int64) Add(d int64) int64 { pt("atomic.Add"); x.v += d; return x.v }
+func (x *Int64) Load() int64       { pt("atomic.Load", unsafe.Pointer(x)); return x.v }
+func (x *Int64) Store(v int64)     { pt("atomic.Store", unsafe.Pointer(x)); x.v = v }
+func (x *Int64) Add(d int64) int64 { pt("atomic.Add", unsafe.Pointer(x)); x.v += d; return x.v }
 
 type Bool struct{ v bool }
 
-func (x *Bool) Load() bool   { pt("atomic.Load"); return x.v }
-func (x *Bool) Store(v bool) { pt("atomic.Store"); x.v = v }
+func (x *Bool) Load() bool   { pt("atomic.Load", unsafe.Pointer(x)); return x.v }
+func (x *Bool) Store(v bool) { pt("atomic.Store", unsafe.Pointer(x)); x.v = v }
